@@ -107,6 +107,10 @@ def run_case(case):
         k = "mut:%s/%s" % (kind, cons)
         res["counts"][k] = res["counts"].get(k, 0) + 1
         res["counts"]["outcome:" + o2.kind] = res["counts"].get("outcome:" + o2.kind, 0) + 1
+        if n % 11 == 0:
+            fs, info = util.block_cosim(src, std=std, case=case)
+            res["findings"] += fs
+            res["counts"]["block-cosim"] = res["counts"].get("block-cosim", 0) + 1
         if o2.kind == "tree":
             ctx = {"std": std, "kind": kind, "cons": cons}
             known = findings.classify("C08", src, ctx)
